@@ -76,3 +76,31 @@ Proof. intros (_ & (_ & _ & Hf) & _). unfold CFGraph_get_valence, d_mem. rewrite
 Theorem is_loopless_refines a b : CFGraph_is_loopless a b = negb (Nat.eqb a b).
 Proof. reflexivity. Qed.
 
+
+(* ---- CFGraph.add_edges: one add_edge per entry, in order; the first refused edge raises and the earlier ones stay applied ---- *)
+Definition add_edges_body (acc_ : pyres (dictD * dictZ * Z) (dictD * dictZ * Z)) (kv_ : nat * nat * Z) : pyres (dictD * dictZ * Z) (dictD * dictZ * Z) :=
+  match acc_ with PyExn e_ => PyExn e_ | PyOk (self_graph, self_vertex_total_valence, self_total_valence) => let '(v1_name, v2_name, valence) := kv_ in
+  match CFGraph_add_edge self_graph self_vertex_total_valence self_total_valence v1_name v2_name valence with
+  | PyExn (self_graph, self_vertex_total_valence, self_total_valence) => PyExn (self_graph, self_vertex_total_valence, self_total_valence)
+  | PyOk (self_graph, self_vertex_total_valence, self_total_valence) => PyOk (self_graph, self_vertex_total_valence, self_total_valence) end end.
+Lemma add_edges_body_exn es e : fold_left add_edges_body es (PyExn e) = PyExn e.
+Proof. induction es as [|x es IH]; [reflexivity|exact IH]. Qed.
+Lemma add_edges_unfold gg vtv tv es : CFGraph_add_edges gg vtv tv es =
+  match fold_left add_edges_body es (PyOk (gg, vtv, tv)) with PyExn e_ => PyExn e_ | PyOk (a, b, c) => PyOk (a, b, c) end.
+Proof. reflexivity. Qed.
+Lemma add_edges_loop : forall es gg vtv tv s, ginv s -> rep_gstate gg vtv tv s ->
+  match fold_left add_edges_body es (PyOk (gg, vtv, tv)) with
+  | PyOk (gg', vtv', tv') => snd (add_edges s es) = true /\ rep_gstate gg' vtv' tv' (fst (add_edges s es))
+  | PyExn (gg', vtv', tv') => snd (add_edges s es) = false /\ rep_gstate gg' vtv' tv' (fst (add_edges s es)) end.
+Proof. induction es as [|[[a b] k] es IH]; intros gg vtv tv s Hi HR.
+  - cbn. split; [reflexivity|exact HR].
+  - cbn [fold_left add_edges]. unfold add_edges_body at 2. pose proof (add_edge_refines gg vtv tv s a b k Hi HR) as H.
+    destruct (CFGraph_add_edge gg vtv tv a b k) as [[[gg1 vtv1] tv1]|[[gg1 vtv1] tv1]].
+    + destruct H as (s1 & E1 & R1). rewrite E1. apply IH; [|exact R1]. apply (add_edge_inv s a b k s1 Hi E1).
+    + destruct H as [E1 E2]. inversion E2; subst. rewrite E1, add_edges_body_exn. cbn. split; [reflexivity|exact HR]. Qed.
+Theorem add_edges_refines gg vtv tv s es : ginv s -> rep_gstate gg vtv tv s ->
+  match CFGraph_add_edges gg vtv tv es with
+  | PyOk (gg', vtv', tv') => snd (add_edges s es) = true /\ rep_gstate gg' vtv' tv' (fst (add_edges s es))
+  | PyExn (gg', vtv', tv') => snd (add_edges s es) = false /\ rep_gstate gg' vtv' tv' (fst (add_edges s es)) end.
+Proof. intros Hi HR. rewrite add_edges_unfold. pose proof (add_edges_loop es gg vtv tv s Hi HR) as H.
+  destruct (fold_left add_edges_body es (PyOk (gg, vtv, tv))) as [[[a b] c]|[[a b] c]]; exact H. Qed.
